@@ -227,6 +227,8 @@ func checkC03RootEscape(w *World, r *Report, o *Own) {
 				case ssa.CallInstruction:
 					if obj := calleeObj(x); obj != nil && obj.Name() == "lookup" && callArgs(x)[0] == ssa.Value(u) {
 						okk, why = true, "immediate receiver of lookup"
+					} else if cal := x.Common().StaticCallee(); cal != nil && callArgs(x)[0] == ssa.Value(u) && cal.Signature.Recv() != nil && !returnsNodeSlice(cal) && !storesParam(cal, 0) {
+						okk, why = true, "immediate receiver of "+cal.Name()+", which neither returns nor stores the root set"
 					} else {
 						why = "passed to " + valStr(x.Common().Value)
 					}
@@ -377,4 +379,61 @@ func checkC03NoBackdoor(w *World, r *Report, o *Own) {
 	}
 	ru.Check("exported API of package fox", "-", "node-typed values never cross the API", leaks == "", orDefault(leaks, "no exported symbol mentions the node type"))
 	_ = token.NoPos
+}
+
+// returnsNodeSlice: some result of fn is a slice of nodes (the root set could leave through it).
+func returnsNodeSlice(fn *ssa.Function) bool {
+	res := fn.Signature.Results()
+	for i := 0; i < res.Len(); i++ {
+		if sl, ok := res.At(i).Type().Underlying().(*types.Slice); ok {
+			if isPointer(sl.Elem()) {
+				return true
+			}
+		}
+	}
+	return false
+}
+
+// storesParam: fn stores its idx-th parameter (or a slice of it) somewhere or hands it to another call.
+func storesParam(fn *ssa.Function, idx int) bool {
+	if idx >= len(fn.Params) {
+		return true
+	}
+	p := ssa.Value(fn.Params[idx])
+	leak := false
+	var walk func(v ssa.Value, depth int)
+	walk = func(v ssa.Value, depth int) {
+		refs := v.Referrers()
+		if refs == nil || depth > 3 {
+			return
+		}
+		for _, ref := range *refs {
+			switch x := ref.(type) {
+			case *ssa.Store:
+				if x.Val == v {
+					leak = true
+				}
+			case *ssa.Slice:
+				walk(x, depth+1)
+			case *ssa.MakeInterface, *ssa.MakeClosure, *ssa.Return:
+				leak = true
+			case ssa.CallInstruction:
+				for i, a := range x.Common().Args {
+					if a == v {
+						cal := x.Common().StaticCallee()
+						if b, isB := x.Common().Value.(*ssa.Builtin); isB && (b.Name() == "len" || b.Name() == "cap") {
+							continue
+						}
+						if cal == nil || cal == fn || depth > 2 || returnsNodeSlice(cal) || storesParam(cal, i) {
+							if cal != fn {
+								leak = true
+							}
+						}
+					}
+				}
+			}
+		}
+	}
+	walk(p, 0)
+	return leak
 }
